@@ -1,6 +1,8 @@
 package checks
 
 import (
+	"bufio"
+	"bytes"
 	"errors"
 	"fmt"
 	"io"
@@ -20,11 +22,12 @@ func init() {
 		ID:    "C06",
 		Title: "ReadPacket consumes exactly one frame from the stream",
 		Level: "model_checking",
-		Rule: "explicit enumeration of operation histories on the real decoder: every sequence of length 1..2 over the whole frame alphabet (valid minimal+rich frames of all 15 types, short forms, remaining-length-0 frames of all 16 first-byte types, content-malformed frames) and every sequence of length 3 over a sub-alphabet (quick: 16 frames; thorough: the whole alphabet), each followed by every tail in {none, 00, ff ff ff ff ff, first byte of a header, a whole further frame}. " +
+		Rule: "explicit enumeration of operation histories on the real decoder: every sequence of length 1..2 over the whole frame alphabet (valid minimal+rich frames of all 15 types, short forms, remaining-length-0 frames of all 16 first-byte types, content-malformed frames) and every sequence of length 3 over a sub-alphabet (quick: 16 frames; thorough: the whole alphabet), each followed by every tail in {none, 00, ff ff ff ff ff, first byte of a header, a whole further frame}, and each handed to ReadPacket through five io.Reader implementations (a counting reader, bufio.Reader with a 16-byte and a 4096-byte buffer, bytes.Reader, bytes.Buffer — a decoder may special-case what a reader can do). " +
 			"After each call: bytes drawn from the counting reader == 1+|remaining length field|+remaining length of that frame; result i equals the result of reading frame i alone (history and tail independence); with no tail the call after the last frame returns an error satisfying errors.Is(err, io.EOF). " +
 			"states = distinct (sequence prefix) stream positions visited, transitions = ReadPacket calls; distinct_nontrivial = distinct (sequence, tail) of length >= 2.",
 		Assumptions: []string{
-			"the reader is contiguous here (it hands over min(asked, available) bytes); fragmentation is C07's dimension",
+			"the readers are contiguous here (they hand over min(asked, available) bytes); fragmentation is C07's dimension",
+			"for bufio readers 'bytes drawn' is measured on the logical stream: bytes taken from the underlying reader minus bytes still buffered",
 		},
 		Run:    runC06,
 		Replay: replayC06,
@@ -33,27 +36,58 @@ func init() {
 
 var c06Tails = [][]byte{nil, {0x00}, {0xff, 0xff, 0xff, 0xff, 0xff}, {0x30}, {0xc0, 0x00}}
 
-func c06Exec(frames []CFrame, seq []int, tail int, alone []string) *core.Finding {
+// reader kinds: the stream is handed to ReadPacket through different
+// io.Reader implementations (a decoder may special-case what a reader can do)
+var c06ReaderKinds = []string{"counting", "bufio16", "bufio4096", "bytes.Reader", "bytes.Buffer"}
+
+type c06Stream struct {
+	r    io.Reader
+	used func() int // bytes consumed from the logical stream so far
+}
+
+func c06Open(kind int, stream []byte) c06Stream {
+	switch kind {
+	case 1, 2:
+		under := &env.Reader{Data: stream}
+		size := 16
+		if kind == 2 {
+			size = 4096
+		}
+		br := bufio.NewReaderSize(under, size)
+		return c06Stream{br, func() int { return under.Off - br.Buffered() }}
+	case 3:
+		br := bytes.NewReader(stream)
+		return c06Stream{br, func() int { return len(stream) - br.Len() }}
+	case 4:
+		bb := bytes.NewBuffer(append([]byte(nil), stream...))
+		return c06Stream{bb, func() int { return len(stream) - bb.Len() }}
+	}
+	under := &env.Reader{Data: stream}
+	return c06Stream{under, func() int { return under.Off }}
+}
+
+func c06Exec(frames []CFrame, seq []int, tail int, alone []string, kind int) *core.Finding {
 	resetGlobals()
 	var stream []byte
 	for _, i := range seq {
 		stream = append(stream, frames[i].B...)
 	}
 	stream = append(stream, c06Tails[tail]...)
-	r := &env.Reader{Data: stream}
+	st := c06Open(kind, stream)
+	r := st.r
 	names := ""
 	for _, i := range seq {
 		names += frames[i].Name + " "
 	}
 	mk := func(class, what string) *core.Finding {
-		return &core.Finding{Class: class, Sig: map[string]string{"seq": names},
-			Detail: fmt.Sprintf("stream [%s] + tail % x: %s", names, c06Tails[tail], what)}
+		return &core.Finding{Class: class + "/" + c06ReaderKinds[kind], Sig: map[string]string{"seq": names, "reader": c06ReaderKinds[kind]},
+			Detail: fmt.Sprintf("stream [%s] + tail % x through %s: %s", names, c06Tails[tail], c06ReaderKinds[kind], what)}
 	}
 	for j, i := range seq {
-		before := r.Off
+		before := st.used()
 		p, err, res := readPacket(r, stepBudget(len(frames[i].B)))
 		got := outcome(p, err, res)
-		drawn := r.Off - before
+		drawn := st.used() - before
 		if drawn != len(frames[i].B) {
 			return mk("bytes-consumed", fmt.Sprintf("call %d (frame %s, %d bytes) drew %d bytes from the stream (result %q)", j+1, frames[i].Name, len(frames[i].B), drawn, clip(got, 80)))
 		}
@@ -111,18 +145,20 @@ func runC06(x *core.Ctx) {
 			return true
 		}
 		for tail := range c06Tails {
-			x.Eval(stratum)
-			x.R.Transitions += int64(len(seq))
-			x.R.Traces++
-			if len(seq) >= 2 {
-				x.Distinct(core.HashInts(fmt.Sprint("t", tail), seq))
-			}
-			if f := c06Exec(frames, seq, tail, alone); f != nil {
-				s := append([]int{}, seq...)
-				t := tail
-				x.Report(f, func() core.Case {
-					return core.Case{Harness: "c06", Choices: s, Params: map[string]any{"tail": t}}
-				}, func() *core.Finding { return c06Exec(frames, s, t, alone) })
+			for kind := range c06ReaderKinds {
+				x.Eval(stratum + "." + c06ReaderKinds[kind])
+				x.R.Transitions += int64(len(seq))
+				x.R.Traces++
+				if len(seq) >= 2 {
+					x.Distinct(core.HashInts(fmt.Sprint("t", tail, "k", kind), seq))
+				}
+				if f := c06Exec(frames, seq, tail, alone, kind); f != nil {
+					s := append([]int{}, seq...)
+					t, k := tail, kind
+					x.Report(f, func() core.Case {
+						return core.Case{Harness: "c06", Choices: s, Params: map[string]any{"tail": t, "reader": k}}
+					}, func() *core.Finding { return c06Exec(frames, s, t, alone, k) })
+				}
 			}
 		}
 		x.R.States += int64(len(seq))
@@ -157,5 +193,5 @@ func runC06(x *core.Ctx) {
 
 func replayC06(c core.Case) *core.Finding {
 	frames := streamCorpus()
-	return c06Exec(frames, c.Choices, paramInt(c.Params, "tail"), c06Alone(frames))
+	return c06Exec(frames, c.Choices, paramInt(c.Params, "tail"), c06Alone(frames), paramInt(c.Params, "reader"))
 }
